@@ -91,7 +91,11 @@ def cases(seed, tier, shard, nshards):
         template = r.choice(TEMPLATES)
         d = gen_doc(r, template)
         setup_ = r.choice(SETUPS)
-        yield {'kind': 'split', 'src': docs.latex(d), 'truth': truth(d), 'level': r.choice([-10, -2, -1, 0, 1, 1, 2, 2, 3, 4, 6]), 'template': template,
+        # footnotes with identical text in the first and the last unit: each must still be printed (equal content is not the same footnote)
+        same = r.randint(2, 3) if r.random() < 0.3 else 0
+        pre = ' '.join('Fn%dz\\footnote{Zf7y same note}' % k for k in range(same - 1)) + ('\n\n' if same else '')
+        suf = ('\n\nFnlz\\footnote{Zf7y same note}\n' if same else '')
+        yield {'kind': 'split', 'src': docs.latex(d, body_prefix=pre, body_suffix=suf), 'same_notes': same, 'truth': truth(d), 'level': r.choice([-10, -2, -1, 0, 1, 1, 2, 2, 3, 4, 6]), 'template': template,
                'bad': r.choice(BADCHARS), 'renderer': setup_[0], 'theme': setup_[1]}
     for i in common.sharded(b['n_det'], shard, nshards):
         r = common.rng_for(seed, PROP, i, 'det')
@@ -292,6 +296,12 @@ def run(case, st):
                 if xhtml:
                     for m in per[n][2]:
                         where.setdefault(m, []).append(n)
+            if case.get('same_notes'):
+                st.counters['identical_footnotes'] += case['same_notes']
+                shown = sum(re.sub(r'<[^>]*>', ' ', pages[n]).count('Zf7y same note') for n in names)
+                if shown != case['same_notes']:
+                    bad.append(('text-lost' if shown < case['same_notes'] else 'text-repeated',
+                                'the text of %d footnotes with identical wording is printed %d time(s) over all files' % (case['same_notes'], shown)))
             titles = set(m for u in tr['units'] for m in u['title'])
             for ui, u in enumerate(tr['units']):
                 fname = names[owner[ui]]
